@@ -15,8 +15,14 @@ vars == <<s, l>>
 
 KeyOf(r) == IF r.op \in {"char", "ctrl"} THEN [k |-> r.op, c |-> r.c] ELSE [k |-> r.op]
 Fn0(q) == [i \in 0..(Len(q) - 1) |-> q[i + 1]]
+\* the history is logged in full, or (long sessions) as its length and its last entries
+MatchHist(h, e) ==
+  IF "hist" \in DOMAIN e THEN h = e.hist
+  ELSE /\ Len(h) = e.hlen
+       /\ Len(e.htail) <= Len(h)
+       /\ \A i \in 1..Len(e.htail) : h[Len(h) - Len(e.htail) + i] = e.htail[i]
 MatchEd(x, r) ==
-  /\ x.text = r.ed.text /\ x.cursor = r.ed.cursor /\ x.hist = r.ed.hist /\ x.hidx = r.ed.hidx
+  /\ x.text = r.ed.text /\ x.cursor = r.ed.cursor /\ MatchHist(x.hist, r.ed) /\ x.hidx = r.ed.hidx
   /\ x.comps = r.ed.comps /\ x.cidx = (IF r.ed.cidx < 0 THEN 0 ELSE r.ed.cidx)
 MatchM(x, r) ==
   /\ x.m.regs = Fn0(r.m.regs) /\ x.m.st = r.m.st /\ x.m.maddr = r.m.maddr /\ x.m.ir = r.m.ir
